@@ -41,7 +41,9 @@ where
         let begin_value = begin_idx + range.start.into();
         match begin_value.cmp(&range.end.into()) {
             Ordering::Less => {
-                let end_value = (begin_value + self.chunk_size).min(range.end.into());
+                let end_value = begin_value
+                    .saturating_add(self.chunk_size)
+                    .min(range.end.into());
                 let values = (begin_value..end_value).map(Idx::from);
                 Some(values)
             }
